@@ -186,12 +186,13 @@ func c02LBServer(i int) (int, error) {
 }
 
 type c02LBResp struct {
-	at   time.Time     // client side: instant the response (or the error) was in
-	took time.Duration // client side: from before connecting until the response (or the error) was in
-	err  error
-	code int
-	hdr  http.Header
-	body []byte
+	ctlLate time.Duration // how late a plain 1 s control timer, started with the request, fired (0: on time or not yet due)
+	at      time.Time     // client side: instant the response (or the error) was in
+	took    time.Duration // client side: from before connecting until the response (or the error) was in
+	err     error
+	code    int
+	hdr     http.Header
+	body    []byte
 }
 
 func (r c02LBResp) String() string {
@@ -213,16 +214,27 @@ func c02LBDo(port int, route int64, q *c02LBReq, bodyLen int) c02LBResp {
 		req.Header.Set("Expect", "100-continue")
 	}
 	t0 := time.Now()
+	ctl := make(chan time.Duration, 1)
+	ctlTimer := time.AfterFunc(time.Second, func() { ctl <- time.Since(t0) - time.Second })
+	late := func() time.Duration {
+		ctlTimer.Stop()
+		select {
+		case d := <-ctl:
+			return d
+		default:
+			return 0
+		}
+	}
 	resp, err := c02LBClient.Do(req)
 	if err != nil {
-		return c02LBResp{err: err, took: time.Since(t0), at: time.Now()}
+		return c02LBResp{err: err, took: time.Since(t0), at: time.Now(), ctlLate: late()}
 	}
 	defer resp.Body.Close()
 	b, err := io.ReadAll(resp.Body)
 	if err != nil {
-		return c02LBResp{err: err, took: time.Since(t0), at: time.Now()}
+		return c02LBResp{err: err, took: time.Since(t0), at: time.Now(), ctlLate: late()}
 	}
-	return c02LBResp{code: resp.StatusCode, hdr: resp.Header, body: b, took: time.Since(t0), at: time.Now()}
+	return c02LBResp{code: resp.StatusCode, hdr: resp.Header, body: b, took: time.Since(t0), at: time.Now(), ctlLate: late()}
 }
 
 // c02LBExpectGap judges how long the response to an Expect: 100-continue request was
@@ -232,6 +244,9 @@ func c02LBDo(port int, route int64, q *c02LBReq, bodyLen int) c02LBResp {
 // for "100 Continue" and sent the body anyway (c02LBExpectWait) is a violation; a
 // delay of seconds below that signature is a stalled machine (Excluded).
 func c02LBExpectGap(q *c02LBReq, r c02LBResp) (fail string, stalled bool) {
+	if r.ctlLate >= time.Second {
+		return "", true // even a plain 1 s timer started with the request fired a second late: the process was starved
+	}
 	gap := r.took
 	if end := atomic.LoadInt64(&q.endNS); end != 0 {
 		gap = r.at.Sub(time.Unix(0, end))
@@ -394,6 +409,9 @@ func c02LBRun(c c02LBCase) (v kit.Verdict) {
 		}
 		if p.badStatus {
 			cls["panic-inside-WriteHeader(invalid status)"] = true
+		}
+		if len(p.body) >= 4000 {
+			cls["body>=4KiB-over-real-connection"] = true
 		}
 		if cf.T > 0 && r.took >= time.Duration(cf.T)*time.Millisecond/2 {
 			// the machine stalled for half the route timeout: "returns at once" no longer describes this run
@@ -570,7 +588,11 @@ func c02LBGen(rt *rapid.T) c02LBCase {
 				}
 				wrote = true
 			case "W":
-				p = append(p, c02Step{K: "W", N: rapid.IntRange(1, 3).Draw(rt, "n")})
+				wn := rapid.IntRange(1, 3).Draw(rt, "n")
+				if rapid.IntRange(0, 7).Draw(rt, "bigw") == 0 {
+					wn = rapid.SampledFrom([]int{455, 7282, 116509}).Draw(rt, "bigwn") // 4 KiB, 64 KiB, 1 MiB over a real connection
+				}
+				p = append(p, c02Step{K: "W", N: wn})
 				wrote = true
 			}
 		}
